@@ -92,9 +92,12 @@ def run_growth(F, rep):
     subs = [[describe(f, a, depth=16) for a in args] for i, c, args, *_ in calls(f) if callee_matches(c, r"::checked_sub$")]
     rep.check(any(s[0] == "arg:self.hp" and "arg:amount" in s[1] for s in subs) and bool(agg_blocks(f, r"PanicReason$", "MemoryOverflow")), "SHAPE-bounds",
               "grow_heap_by:hp.checked_sub(amount)-else-MemoryOverflow", where, "new_hp must be hp.checked_sub(amount) with MemoryOverflow on underflow; found %s" % subs)
-    tr = [[describe(f, a, depth=8) for a in args] for i, c, args, *_ in calls(f) if callee_matches(c, r"Vec.*::truncate$")]
-    rep.check(any(t[0] == "arg:self.stack" for t in tr), "DOM-zero-on-grow", "grow_heap_by:stack-truncated-to-new_hp", where,
-              "the stack buffer must be truncated where the heap now lives (so regrown stack reads zero)")
+    tr = [[describe(f, a, depth=16) for a in args] for i, c, args, *_ in calls(f) if callee_matches(c, r"Vec.*::truncate$")]
+    trb = [i for i, c, args, *_ in calls(f) if callee_matches(c, r"Vec.*::truncate$")]
+    from fvlib.summ import ok_sites as _oks
+    rep.check(len(tr) == 1 and tr[0][0] == "arg:self.stack" and "checked_sub(arg:self.hp" in tr[0][1] and "sp_reg" not in tr[0][1] and cfg.must_pass(trb, 0, _oks(f, cfg)),
+              "DOM-zero-on-grow", "grow_heap_by:stack-truncated-to-new_hp", where,
+              "on every Ok path the stack buffer must be truncated exactly at the new $hp (everything below stays readable, regrown stack reads zero); truncate calls %s" % tr)
 
     # ------------------------------------------------------------ grow_stack
     n, f = fn("grow_stack")
